@@ -17,7 +17,13 @@ def c01(tier, dev):
 def c02(tier, dev):
     return run_cs_property("C02", tier, [Campaign("C02", "plain")], assumptions=ASSUME_GENERIC, dev=dev)
 
-PROPS = {"C01": c01, "C02": c02}
+def two_builds(prop):
+    def f(tier, dev):
+        n2 = 500000 if tier == "quick" else 5000000
+        return run_cs_property(prop, tier, [Campaign(prop, "plain"), Campaign(prop, "plain-noslack", cases=n2)], assumptions=ASSUME_GENERIC, dev=dev)
+    return f
+
+PROPS = {"C01": c01, "C02": c02, "C03": two_builds("C03"), "C04": two_builds("C04"), "C08": two_builds("C08")}
 
 def main():
     ap = argparse.ArgumentParser()
